@@ -265,9 +265,15 @@ def cases(tier, seed):
         out.append({"k": "packed", "u": "U2", "i0": i0, "i1": min(n2, i0 + 4)})
         out.append({"k": "multiples", "u": "U2", "i0": i0, "i1": min(n2, i0 + 4)})
     for i in range(0, n1, 1):
-        out.append({"k": "scalar", "u": "U1", "i": i, "mod": 7})
+        out.append({"k": "scalar", "u": "U1", "i": i, "mod": 7 if tier == "quick" else 1})
     for i in range(0, n2, 1):
-        out.append({"k": "scalar", "u": "U2", "i": i, "mod": 9})
+        out.append({"k": "scalar", "u": "U2", "i": i, "mod": 9 if tier == "quick" else 1})
+    if tier == "thorough":
+        n1b, n2b = len(uni("U1b")[1]), len(uni("U2b")[1])
+        for i0 in range(0, n1b, 4):
+            out.append({"k": "packed", "u": "U1b", "i0": i0, "i1": min(n1b, i0 + 4)})
+        for i0 in range(0, n2b, 4):
+            out.append({"k": "packed", "u": "U2b", "i0": i0, "i1": min(n2b, i0 + 4)})
     out.append({"k": "U3"})
     out.append({"k": "arrays"})
     out.append({"k": "floats"})
@@ -278,6 +284,10 @@ def cases(tier, seed):
 def uni(name):
     if name == "U1":
         return ("q0",), U1()
+    if name == "U1b":
+        return ("q0",), space.universe(("q0",), 3, 3, [1, -1, 2])
+    if name == "U2b":
+        return ("q0", "q1", "q2"), space.universe(("q0", "q1", "q2"), 2, 2, [1, -2])
     return ("q0", "q1"), U2()
 
 
